@@ -852,9 +852,10 @@ class Explorer:
             for x in ast.walk(c):
                 if isinstance(x, ast.Compare) and len(x.ops) == 1 and isinstance(x.ops[0], ast.Eq):
                     l, r = x.left, x.comparators[0]
-                    if isinstance(l, ast.Name) and l.id == var and isinstance(r, ast.Name):
+                    # (`t == t` - the loop variable shadowing the parameter it was meant to be compared with - compares nothing)
+                    if isinstance(l, ast.Name) and l.id == var and isinstance(r, ast.Name) and r.id != var:
                         eqnames.append(r.id)
-                    elif isinstance(r, ast.Name) and r.id == var and isinstance(l, ast.Name):
+                    elif isinstance(r, ast.Name) and r.id == var and isinstance(l, ast.Name) and l.id != var:
                         eqnames.append(l.id)
         found = ('found', src, next(_uid), st.env.get(eqnames[0]) if eqnames else None)
         src_val = self.pure_value(iter_node, st)
